@@ -495,6 +495,10 @@ def build_instance_tree(
                         vmod_arg.value.modifications = [el_arg]
                         sym_mod.arguments.append(vmod_arg)
                     else:
+                        # The nested arguments are written in the same scope as the argument itself
+                        for nested_arg in el_arg.arguments:
+                            if nested_arg.scope is None:
+                                nested_arg.scope = arg.scope
                         sym_mod.arguments.extend(el_arg.arguments)
 
             if sym.class_modification:
@@ -547,6 +551,10 @@ def build_instance_tree(
                             vmod_arg.value.modifications = [el_arg]
                             sym_mod.arguments.append(vmod_arg)
                         else:
+                            # The nested arguments are written in the same scope as the argument itself
+                            for nested_arg in el_arg.arguments:
+                                if nested_arg.scope is None:
+                                    nested_arg.scope = arg.scope
                             sym_mod.arguments.extend(el_arg.arguments)
                 else:
                     arg.value.component = arg.value.component.child[0]
